@@ -293,6 +293,22 @@ theorem inv_createTopic {s : St} (h : Inv s) (ph : Nat) (n : String) (k : Bool) 
           have := h.topics.push p.uid (findPart_lt h hp)
           simpa [topicKey] using this
 
+theorem inv_findTopicOp {s : St} (h : Inv s) (ph : Nat) (n : String) (k d : Bool) : Inv (findTopicOp s ph n k d).1 := by
+  unfold findTopicOp
+  split
+  · exact h
+  · rename_i p hp
+    split
+    · exact h
+    · split
+      · exact h
+      · simp only
+        split
+        · exact h
+        · refine ⟨h.partsLt, h.partsNd, h.pubs, h.subs, ?_, h.writers, h.readers⟩
+          have := h.topics.push p.uid (findPart_lt h hp)
+          simpa [topicKey] using this
+
 theorem inv_deleteTopic {s : St} (h : Inv s) (via : Nat) (r : TopicRef) : Inv (deleteTopic s via r).1 := by
   unfold deleteTopic
   split
